@@ -208,6 +208,26 @@ def native_checks():
                     fail("sql-keyword-quoting", "%s: field %r rendered as %r, expected %r" % (dname, w, col["name"], want), dialect=dname, name=w)
             except Exception as e:  # noqa
                 fail("sql-keyword-quoting", "%s: field %r: %s: %s" % (dname, w, type(e).__name__, e), dialect=dname, name=w)
+    # a name is quoted exactly if it is a keyword of the dialect *this* statement is made for, whatever was
+    # generated before in the same process (keyword tables of the dialects as documented by their vendors)
+    table = {"index": dict(ansi=False, transact=True, db2=True), "date": dict(ansi=True, transact=False, db2=False),
+             "top": dict(ansi=False, transact=True, db2=False), "comment": dict(ansi=False, transact=False, db2=True),
+             "level": dict(ansi=True, transact=False, db2=False), "year": dict(ansi=True, transact=False, db2=True),
+             "select": dict(ansi=True, transact=True, db2=True), "customer_id": dict(ansi=False, transact=False, db2=False)}
+    import itertools as _it
+    for order in _it.permutations(("ansi", "transact", "db2")):
+        for w, exp in table.items():
+            cid = interface.create_cid_from_string("d,format,delimited\nf,%s,,,...5,Text\nf,other,,,...5,Text\n" % w)
+            for dname in order:
+                n += 1
+                try:
+                    col = parse_columns(sql.SqlFactory(cid, "t", dialect_of(dname)).create_table_statement())[0]
+                    want = ('"%s"' % w) if exp[dname] else w
+                    if col["name"] != want:
+                        fail("sql-keyword-quoting", "dialects in the order %r: %s renders field %r as %r, expected %r" % (
+                            order, dname, w, col["name"], want), dialect=dname, name=w, order=list(order))
+                except Exception as e:  # noqa
+                    fail("sql-keyword-quoting", "%s: field %r: %s: %s" % (dname, w, type(e).__name__, e), dialect=dname, name=w)
     # one factory asked several times gives the same answer every time
     for dname in DIALECTS + ("ansi",):
         n += 1
